@@ -45,4 +45,16 @@ CHECKS["C05"] = {
             "direction and in order. One defect is recorded as a known finding and its paths are excluded.",
     "note": TRUST + "Packets are duck-typed stubs; the record layer is replaced by a recorder. Bounds in the evidence file.",
 }
+CHECKS["C01"] = {
+    "technique": "symbolic execution of the whole TLS-over-TCP path (Packet, main.handle_packet, Session, key_derivator, Decryptor, OutputBuilder) against RFC reference endpoints under an ideal-cryptography model, plus one inductive record step from an arbitrary cipher state",
+    "text": "For every behaviour class of TLExport's suite table in every version it is valid for, several handshake shapes and a "
+            "history of application records whose contents, lengths, directions, randoms, secrets, IVs/nonces and ciphertexts are "
+            "symbolic, z3 shows that the exported TCP payload per direction equals the application data sent; a second harness "
+            "proves, per decrypt method, that one record from an arbitrary cipher state (any 64-bit sequence number, CBC residue, "
+            "RC4 position, TLS 1.3 epoch) decrypts to the sent plaintext and advances the state as the RFC does, which extends the "
+            "bounded histories to any length. Sampled passing paths are re-run end to end on the real program with real cryptography.",
+    "note": TRUST + "cryptography is replaced by an ideal model (uninterpreted hashes/PRFs/permutations/key streams, AEAD event table), scapy "
+            "by recorder classes, dpkt by a spec parser; correctness of OpenSSL-backed primitives and scapy serialisation is trusted "
+            "(exercised only by the validated end-to-end replays). One record per TCP segment here; segmentation is C05.",
+}
 NOT_APPLICABLE = {}
